@@ -159,7 +159,7 @@ def run_history(h, maxviol=3):
 
 def run(tier, r):
     bud = oc.Budget(oc.tier_seconds(tier, 90.0, 1500.0))   # safety cap; counts are fixed
-    nhist = 420 if tier == "quick" else 6000
+    nhist = 3000 if tier == "quick" else 20000
     maxlen = 80 if tier == "quick" else 200
     viol, samples = [], []
     stats = {"dims": {}, "ops": {}, "total_ops": 0, "max_len": 0}
